@@ -16,9 +16,9 @@ var pool = []string{"a", "A", "b"}
 type fn struct{ name string }
 
 func (f *fn) Call(ctx data.Context) (data.GetValue, data.Control) { return data.NewNullValue(), nil }
-func (f *fn) GetName() string                                      { return f.name }
-func (f *fn) GetParams() []data.GetValue                           { return nil }
-func (f *fn) GetVariables() []data.Variable                        { return nil }
+func (f *fn) GetName() string                                     { return f.name }
+func (f *fn) GetParams() []data.GetValue                          { return nil }
+func (f *fn) GetVariables() []data.Variable                       { return nil }
 
 // view of one VM: what each pool name resolves to, per registry
 type view struct {
